@@ -42,6 +42,7 @@ type Fn struct {
 	RecvU  bool   `json:",omitempty"` // the receiver type is U instead of T
 	Name   string `json:",omitempty"` // method name; the same name exists on both receiver types
 	Defer  bool   `json:",omitempty"` // calls the next function of the chain in a deferred call (its frame is then reported at its closing brace)
+	InB    bool   `json:",omitempty"` // declared in b.go instead of main.go: a traceback walks through both files in any pattern
 	Params []Param
 }
 
@@ -156,7 +157,7 @@ func genProg(t *rapid.T, nchains int) c19Prog {
 		// them at least twice)
 		forwarded := map[string]uint64{}
 		for f := 0; f < nf; f++ {
-			fn := Fn{Recv: oneIn(t, 3, "method"), Defer: oneIn(t, 4, "defer")}
+			fn := Fn{Recv: oneIn(t, 3, "method"), Defer: oneIn(t, 4, "defer"), InB: rapid.Bool().Draw(t, "inB")}
 			if fn.Recv {
 				// methods of the two receiver types share their names (run0, run1, ...)
 				fn.RecvU = rapid.Bool().Draw(t, "recvU")
@@ -229,10 +230,10 @@ func (fn *Fn) recvType() string {
 	return "T"
 }
 
-// fileOf: the functions alternate between two source files, so that one traceback walks
-// through both.
-func fileOf(c, f int) string {
-	if (c+f)%2 == 1 {
+// fileOf: each function lies in one of two source files, so that one traceback walks through
+// both, in runs of any length.
+func (p *c19Prog) fileOf(c, f int) string {
+	if p.Chains[c].Funcs[f].InB {
 		return "b.go"
 	}
 	return "main.go"
@@ -261,7 +262,7 @@ func (p *c19Prog) sources() map[string]string {
 	for c, ch := range p.Chains {
 		for f, fn := range ch.Funcs {
 			w := &b
-			if fileOf(c, f) == "b.go" {
+			if p.fileOf(c, f) == "b.go" {
 				w = &b2
 			}
 			w.WriteString("\n//go:noinline\nfunc ")
@@ -302,13 +303,13 @@ func (p *c19Prog) sources() map[string]string {
 // lastInFile: function f of chain c is the last declaration of its source file.  Only b.go
 // can end with a generated function; main.go ends with main.
 func lastInFile(p *c19Prog, c, f int) bool {
-	if fileOf(c, f) != "b.go" {
+	if p.fileOf(c, f) != "b.go" {
 		return false
 	}
 	lc, lf := -1, -1
 	for ci, ch := range p.Chains {
 		for fi := range ch.Funcs {
-			if fileOf(ci, fi) == "b.go" {
+			if p.fileOf(ci, fi) == "b.go" {
 				lc, lf = ci, fi
 			}
 		}
